@@ -19,6 +19,38 @@ CHECKS = {
              "(wsaccel absent).", ref="4 C06"),
 }
 
+RECV_NOTE = ("Trusts TLC, the scripted transport and projection (vf/recvworld.py, ~250 lines) and the "
+             "independent frame builder vf/wire.py; transport behaviour (cuts, timeouts, EOF, reset) is simulated.")
+
+
+def _recv(pid, text, tech):
+    CHECKS[pid] = dict(engine="Recv+RecvMC+TraceRecv", technique=tech, text=text, note=RECV_NOTE, ref="4 " + pid)
+
+
+_recv("C02", "TLC model-checks the byte-level receive machine (Recv.tla) against a frame-level oracle over all "
+      "cuttings of small streams; every first header byte x mask x length class, all three length forms, "
+      "non-minimal encodings and back-to-back streams are executed against the real recv_frame/recv_data_frame "
+      "and the recorded traces are validated by TLC step by step against the same machine.",
+      "TLC exhaustive model checking of Recv.tla + TLC trace validation (TraceRecv) of real executions")
+_recv("C03", "TLC explores every cutting of the stream at the granularity of the machine's own read requests and "
+      "timeouts at any point and checks that the observations never leave the frame-level oracle; the real "
+      "library is run over exhaustive partitions of short streams (and sampled ones of long streams), timeouts at "
+      "every byte position and in pairs, head and frames in one flow through the real connect(); all traces are "
+      "validated by TLC against one deterministic machine, so all segmentations give identical results.",
+      "TLC exhaustive model checking (SegIndep, NoLoss, Conservation) + TLC trace validation over exhaustive cut sets")
+_recv("C04", "Reassembly is stated twice in TLA+ (machine + independent MsgsOf) and model-checked; all compositions of "
+      "short messages into 1..4 fragments with control frames in the gaps, per-fragment delivery and validation "
+      "on/off are executed through recv/recv_data/recv_data_frame and validated as traces.",
+      "TLC exhaustive model checking (ReassemblyExact) + TLC trace validation of enumerated fragmentations")
+_recv("C05", "Frame legality is a TLA+ operator (Codec!FrameFaults) plus the machine's sequencing rule, cross-checked in "
+      "TLC against an independent first-illegal-frame scan; all 256 first bytes x length classes, close bodies, all "
+      "sequencing histories up to a bound and all close status codes are executed and judged by TLC.",
+      "TLC exhaustive model checking (RejectIffIllegal) + TLC trace validation + TLC batch over all close codes")
+_recv("C07", "The machine makes the pong an obligation that must be discharged before the next transport read (TLC: "
+      "PongBeforeRead, PongsMirrorPings); every ping length 0..125 and pings at random positions of streams are "
+      "executed and the interleaving of transport reads and writes is validated by TLC.",
+      "TLC exhaustive model checking + TLC trace validation of read/write interleavings")
+
 NOT_YET = {}
 
 
